@@ -10,7 +10,8 @@ from .. import standalone as sa
 
 HDR_NAMES = [b"X-A", b"X-Custom-Header", b"Accept", b"Accept-Language", b"User-Agent", b"Referer", b"X-Forwarded-For", b"If-None-Match", b"x-lower", b"X-UPPER-CASE", b"Authorization"]
 HDR_VALUES = [b"v", b"text/html, */*;q=0.8", b"Mozilla/5.0 (X11; Linux) Gecko", b"\"quoted value\"", b"\"a \\\"b\\\" c\"", b"a=b; c=\"d e\"", b"(comment) token", b"en-US,en;q=0.5", b"W/\"etag-1\"",
-              b"1.2.3.4, 5.6.7.8", b"x" * 300, b"with  two spaces", b"tab\there", b"Basic dXNlcjpwYXNz", b"non-ascii \xc3\xa9\xff"]
+              b"1.2.3.4, 5.6.7.8", b"x" * 300, b"with  two spaces", b"tab\there", b"Basic dXNlcjpwYXNz", b"non-ascii \xc3\xa9\xff",
+              b"http://x/y_(z", b"sad :-( face", b"5\" screen", b"unbalanced ) and (", b"(("]
 SEG = [b"a", b"seg", b"with space", b"pl+us", b"per%cent", b"uni\xc3\xa9", b"\xff\xfe", b"semi;colon", b"q?mark", b"amp&", b"eq=", b"~tilde-._", b"hash#", b"quote\"", b"paren(", b"a.b", b"..", b".", b"x" * 60]
 
 
@@ -22,11 +23,6 @@ def gen_req(rnd, script, idx):
         path += b"/" + rnd.choice(SEG)
     if nseg and rnd.random() < 0.2:
         path += b"/"
-    # an unbalanced quote/parenthesis in the request line is handled by the header tokenizer: keep them balanced in the path
-    if path.count(b"\"") % 2:
-        path += b"\""
-    if path.count(b"(") != path.count(b")"):
-        path += b")"
     query = None
     if rnd.random() < 0.7:
         pairs = []
